@@ -140,8 +140,13 @@ def sh(cmd, **kw):
     return subprocess.run(cmd, shell=isinstance(cmd, str), stdout=subprocess.PIPE, stderr=subprocess.STDOUT, text=True, **kw)
 
 
+PLAYBACK_FOR = {"M3", "M13"}   # concrete playback (slow: full trace + native build) only for these; Kani's verdict decides 'caught'
+
+
 def run_check(prop, tag):
     env = dict(os.environ, VERIF_REPO=WT, VERIF_EVIDENCE_DIR="/verif/work/mut_evidence")
+    if tag not in PLAYBACK_FOR:
+        env["VERIF_RUSTGEN_NO_PLAYBACK"] = "1"
     t0 = time.time()
     p = sh(["/verif/check", prop], env=env)
     with open(os.path.join(OUT, "%s_%s.out" % (tag, prop)), "w") as f:
